@@ -21,12 +21,25 @@ PRELUDE = r'''
 int printf(const char *, ...);
 int _setjmp(void *);
 void longjmp(void *, int);
+void *signal(int, void *);
+int setitimer(int, void *, void *);
+int sigprocmask(int, void *, void *);
 static int buf[260], nb;
 static long jb[64];
 static int M(int i) { if (nb >= 250) longjmp(jb, 1); buf[nb++] = i; return 7; }
 static int T(int i) { M(i); return 1; }
 static int F(int i) { M(i); return 0; }
 static void show(int id) { printf("C %d", id); for (int i = 0; i < nb; i++) printf(" %d", buf[i]); printf("\n"); }
+/* a case that spins without marks (only a broken compiler produces one) is cut off after 1 s of its
+   own CPU time (ITIMER_VIRTUAL: machine load cannot trigger it) */
+static void on_vtalrm(int s) { longjmp(jb, 2); }
+static void arm(long sec) { long tv[4] = {0, 0, sec, 0}; setitimer(1, tv, 0); }
+static void run(int id, void (*f)(void)) {
+  int r;
+  nb = 0;
+  if ((r = _setjmp(jb)) == 0) { arm(1); f(); arm(0); show(id); }
+  else { unsigned long z[16] = {0}; arm(0); sigprocmask(2, z, 0); printf("C %d %s\n", id, r == 1 ? "OVERFLOW" : "TIMEOUT"); }
+}
 '''
 LOOPS = ("While", "Do", "For")
 
@@ -138,9 +151,7 @@ def expect_flow(idx, c):
 
 
 def main_flow(batch):
-    return ("int main(void) {\n" +
-            "".join(" nb = 0; if (_setjmp(jb) == 0) { f%d(); show(%d); } else printf(\"C %d OVERFLOW\\n\");\n" % (i, i, i) for i, _ in batch) +
-            " return 0; }\n")
+    return ("int main(void) {\n signal(26, on_vtalrm);\n" + "".join(" run(%d, f%d);\n" % (i, i) for i, _ in batch) + " return 0; }\n")
 
 
 # --------------------------------------------------------------- batched compile and run
@@ -590,7 +601,7 @@ def run(ctx):
     if ctx.tlc("flow", "SwitchCmp", ctx.cfg("flow", "SwitchCmp.cfg", FIXED=False), workers=1, heap="1g", count=False).ok:
         raise Infra("sensitivity control failed: TLC accepts case labels stored in int")
     typed = typed_switch_cases([c for c in progs["switch"] if len(c["p"]) <= (5 if q else 6)])
-    tsel = vt.subsample(typed, ctx.seed, 24 if q else 2)
+    tsel = vt.subsample(typed, ctx.seed, 24 if q else 1)
     ctx.sample(dict(kind="switch", c_source=render_flow(0, tsel[len(tsel) // 3]), expected=expect_flow(0, tsel[len(tsel) // 3])))
     compare(ctx, tree, tsel, render_flow, expect_flow, main_flow, "switch", flow_sig, first=1000000)
     ctx.phase("typed switch replay")
